@@ -454,7 +454,8 @@ class NetworkGraph(AbstractBaseIR):
         else:
             # --- ODE cascade (gamma kernel or adaptive step size) ---
             if spread is not None and spread > 0:
-                n = max(1, int(round((delay / spread) ** 2)))
+                # (dde_approx is a lower bound of the order, as for scalar edges in `_add_edge_buffer`)
+                n = max(1, int(round((delay / spread) ** 2)), dde_approx)
             elif dde_approx > 0:
                 n = dde_approx
             else:
